@@ -8,6 +8,7 @@ import Daac.Model.Search
 import Daac.Model.Build
 import Daac.Model.Serial
 import Daac.Inv
+import Daac.InvExtra
 import Daac.Gen.Consts
 namespace Daac.Driver
 open Daac
@@ -285,6 +286,7 @@ def checkInvs (c : Case) (da : DA Int) (LPret : List (LPat Int)) (a : Acc) : Acc
   if !da.boundsInv then a := a.inv "BoundsInv" c.id "an index stored in the tables is out of range / block structure broken"
   if !da.countInv LPret then
     a := a.inv "CountInv" c.id s!"num_states={da.numStates} trie_nodes={(da.nodes LPret).length}"
+  if !da.sizeInv LPret then a := a.inv "SizeInv" c.id s!"max key length {maxKeyLen LPret} / patterns {LPret.length} vs elements {da.states.size} / outputs {da.outputs.size}"
   if c.kind == 0 then
     if !da.tableInv LPret then a := a.inv "TableInv" c.id "child/fail/output structure does not mirror the trie of the patterns"
   else
